@@ -17,7 +17,7 @@ pub fn uniq() -> u64 {
 }
 
 pub fn scratch_dir() -> String {
-  let d = format!("{}/target/scratch/{}", crate::engine::VERIF_ROOT, std::process::id());
+  let d = format!("{}/target/scratch/{}", crate::engine::verif_root(), std::process::id());
   let _ = std::fs::create_dir_all(&d);
   d
 }
